@@ -340,7 +340,10 @@ func (d *AnimDecoder) isKeyFrame(idx int) bool {
 		frameWidth(f) == canvasW && frameHeight(f) == canvasH
 
 	if isFullFrame {
-		if !f.HasAlpha || f.Blend == BlendNone {
+		// The HasAlpha flag is only a hint (it defaults to false on frames
+		// built by the caller), so an alpha-blended frame is trusted to
+		// replace the canvas only if its pixels really are opaque.
+		if f.Blend == BlendNone || (!f.HasAlpha && frameIsOpaque(f)) {
 			return true
 		}
 	}
@@ -460,6 +463,15 @@ func clearCanvas(canvas *image.NRGBA) {
 	for i := range canvas.Pix {
 		canvas.Pix[i] = 0
 	}
+}
+
+// frameIsOpaque reports whether every pixel of the frame's image is known to
+// be fully opaque.
+func frameIsOpaque(f *Frame) bool {
+	if o, ok := f.Image.(interface{ Opaque() bool }); ok {
+		return o.Opaque()
+	}
+	return false
 }
 
 // frameWidth returns the width of the frame's image, or 0 if nil.
